@@ -616,7 +616,10 @@ class CallMixin:
 
                 return _c.copy(recv)
             try:
-                hash_ok = all(_h(x) for x in args) or m in ("append", "extend", "insert", "update", "index", "count", "join", "get", "setdefault")
+                hash_ok = all(_h(x) for x in args) or m in (
+                    "append", "extend", "insert", "update", "index", "count", "join", "get", "setdefault", "intersection",
+                    "union", "difference", "issubset", "issuperset", "isdisjoint", "symmetric_difference",
+                    "difference_update", "intersection_update")
                 if not hash_ok:
                     return App(name, args, kwargs, uid=self.next_uid())
                 if m == "get" and isinstance(recv, dict):
